@@ -313,24 +313,61 @@ def run(ck):
             ck.judge(ca.get("difference") == dif and dif is not None and dif[0] == "app" and dict(dif[3]).get("pairs") == ca.get("pairs"),
                      "C19.3", short(rcmp) + ":coverage-args", wr, "coverage of a side is computed from that side's pairs and its own difference",
                      found=T.show(cov)[:200])
-    cov_fn = p.find_method("AlignmentRowComparer", "__getCoverage")
+    # the two private helpers are taken from the comparison row itself (their names are free to change)
+    cov_q = dif_q = None
+    for pa0 in explore(ck, rcmp):
+        if pa0.outcome == "return" and pa0.value[0] == "new":
+            a0 = dict(pa0.value[2])
+            c0, d0 = a0.get("alignment1Coverage"), a0.get("alignment1ExclusivePairs")
+            if c0 is not None and c0[0] == "app":
+                cov_q = c0[1]
+            if d0 is not None and d0[0] == "app":
+                dif_q = d0[1]
+    cov_fn = p.functions.get(cov_q) if cov_q else None
+    dif_fn = p.functions.get(dif_q) if dif_q else None
+    if cov_fn is None and dif_fn is None and c0 is not None and d0 is not None and c0[0] != "app" and d0[0] != "app":
+        # both helpers were read through (moved / inlined): the row's fields are judged as they stand
+        from ..rules.common import set_difference
+        inner = d0[2][0] if d0[0] == "call" and d0[1] == "sorted" and d0[2] else d0
+        sd = set_difference(inner)
+        if not sd:
+            raise AnalysisError(f"{rcmp.where}: exclusive pairs of the comparison row not recognised: {T.show(d0)[:160]}")
+        P = sd[0]
+        nP = T.mk_call("len", [P])
+        want0 = T.mk_select(P, ("div", T.p_sub(nP, T.mk_call("len", [d0])), nP), C(1))
+        ck.judge(c0 == want0, "C19.3", short(rcmp) + ":coverage", rcmp.where,
+                 "coverage = (|pairs| - |difference|) / |pairs|, and 1 for an alignment without pairs", found=T.show(c0)[:200],
+                 required=T.show(want0)[:200])
+        ck.ok("C19.3", short(rcmp) + ":difference", rcmp.where, "difference = pairs of this side that the other side lacks", T.show(d0)[:160])
+        n = R.run_role_rule(ck, "C19.1", modules={"src.diagnostic.alignment_comparer", "src.compare_alignments"})
+        ck.floor("C19 role bindings judged", n, 20)
+        return
+    if cov_fn is None:
+        cov_fn = p.find_method("AlignmentRowComparer", "__getCoverage")
+    if dif_fn is None:
+        dif_fn = p.find_method("AlignmentRowComparer", "__getDifference")
     from ..rules.common import merged_return
     cov_v, cov_pa = merged_return(ck, cov_fn)
-    pairs, diff = V("pairs"), V("difference")
+    cps = [pp.name for pp in cov_fn.call_params()]
+    if len(cps) != 2:
+        raise AnalysisError(f"{cov_fn.where}: the coverage helper is expected to take (pairs, difference)")
+    pairs, diff = V(cps[0]), V(cps[1])
     n = T.mk_call("len", [pairs])
     want = T.mk_select(pairs, ("div", T.p_sub(n, T.mk_call("len", [diff])), n), C(1))
     ck.judge(cov_v == want, "C19.3", short(cov_fn), where(cov_fn, cov_pa.node),
              "coverage = (|pairs| - |difference|) / |pairs|, and 1 for an alignment without pairs", found=T.show(cov_v),
              required=T.show(want))
-    dif_fn = p.find_method("AlignmentRowComparer", "__getDifference")
+    dps = [pp.name for pp in dif_fn.call_params()]
+    if len(dps) != 2:
+        raise AnalysisError(f"{dif_fn.where}: the difference helper is expected to take (pairs, otherPairs)")
     for pa in explore(ck, dif_fn):
         if pa.outcome == "return":
             v2 = pa.value
             inner = v2[2][0] if v2[0] == "call" and v2[1] == "sorted" and v2[2] else v2
             from ..rules.common import set_difference
-            okd = set_difference(inner) == (V("pairs"), V("otherPairs"))
+            okd = set_difference(inner) == (V(dps[0]), V(dps[1]))
             ck.judge(bool(okd), "C19.3", short(dif_fn), where(dif_fn, pa.node), "difference = pairs of this side that the other side lacks",
-                     found=T.show(v2)[:160], required="set(pairs) - set(otherPairs)")
+                     found=T.show(v2)[:160], required=f"set({dps[0]}) - set({dps[1]})")
     n = R.run_role_rule(ck, "C19.1", modules={"src.diagnostic.alignment_comparer", "src.compare_alignments"})
     ck.floor("C19 role bindings judged", n, 20)
 
